@@ -277,7 +277,8 @@ def observables_correspondence(rep: Report, rng, ncases: int) -> None:
 
 
 # ------------------------------------------------------------------ end-to-end metamorphic search (real back-end)
-# per-atom results in [0,1]. Clean-tree spread between orders (precision=1e-10, dt=10): n=3: 5e-14; n=4: <= 7e-8
+# per-atom results in [0,1]. Clean-tree spread between orders (precision=1e-10, dt=10): n=3: 5e-14; n=4 Rydberg: <= 1.2e-6
+# with signed couplings (XY at n=4: 4e-5, therefore XY cases use n=3)
 # (n=5: 7e-7 and 2 min per case — not run). Tolerance = max(1e-6, 1e4 x spread); a bookkeeping error (a drive, a mask
 # entry or a result landing on the wrong atom) shows at the 1e-2..1 level.
 def e2e_tol(n: int) -> float:
@@ -285,16 +286,26 @@ def e2e_tol(n: int) -> float:
 
 
 
-def gen_e2e(rng, nmax):
+def gen_e2e(rng, nmax, sign=None, ham=None):
     import math
+    sign = sign or rng.choice(["nonneg", "mixed", "mixed", "negative"])
+    ham = ham or rng.choice(["Rydberg", "Rydberg", "XY"])
     n = rng.randint(3, nmax)
+    if ham == "XY":
+        n = 3           # order-dependence of the XY solver at n=4 is ~4e-5 (clean tree): too close to any useful tolerance
     pts = [(rng.uniform(0, 8 * n), rng.uniform(0, 6)) for _ in range(n)]
     U = [[0.0] * n for _ in range(n)]
     for i in range(n):
         for j in range(i + 1, n):
             U[i][j] = U[j][i] = 5420158.53 / (math.dist(pts[i], pts[j]) + 6.0) ** 6
+    for i in range(n):
+        for j in range(i + 1, n):
+            sg = {"nonneg": 1.0, "negative": -1.0, "mixed": rng.choice([1.0, -1.0])}[sign]
+            U[i][j] = U[j][i] = sg * U[i][j]
+    if sign == "mixed" and all(U[i][j] >= 0 for i in range(n) for j in range(n)):
+        U[0][1] = U[1][0] = -U[0][1]
     steps = rng.randint(2, 4)
-    case = dict(n=n, U=U, steps=steps,
+    case = dict(n=n, U=U, steps=steps, sign=sign, ham=ham, real_order=rng.random() < 0.3,
                 omega=[[rng.uniform(2, 8) for _ in range(n)] for _ in range(steps)],      # per-atom drives
                 delta=[[rng.uniform(-6, 6) for _ in range(n)] for _ in range(steps)],
                 phi=[[rng.uniform(0, 1) for _ in range(n)] for _ in range(steps)],
@@ -303,6 +314,10 @@ def gen_e2e(rng, nmax):
     if rng.random() < 0.3:
         case["bad"][rng.randrange(n)] = True
     return case
+
+
+class InputMutated(Exception):
+    pass
 
 
 def run_backend(case, order, site_perm, optimise):
@@ -318,14 +333,29 @@ def run_backend(case, order, site_perm, optimise):
     U = [[case["U"][i][j] for j in order] for i in order]
     ids = [case["ids"][i] for i in order]
     tt = [10.0 * k for k in range(case["steps"] + 1)]
+    xy = case.get("ham") == "XY"
     data = compat.make_sequence_data(g(case["omega"]), g(case["delta"]), g(case["phi"]), U, tt, qubit_ids=ids,
-                                     bad_atoms=[case["bad"][i] for i in order])
+                                     bad_atoms=[case["bad"][i] for i in order],
+                                     eigenstates=("u", "d") if xy else ("r", "g"), hamiltonian_type="XY" if xy else "Rydberg")
+    probe_times = [0.0, 0.5 * tt[-1], tt[-1]]
+    before = [data.interaction_matrix(t).detach().clone().view(torch.int64) for t in probe_times]
     ev = [1.0]
     cfg = compat.mps_config(observables=[pb.Occupation(evaluation_times=ev), pb.CorrelationMatrix(evaluation_times=ev),
                                          pb.Energy(evaluation_times=ev)],
                             optimize_qubit_ordering=optimise, dt=10, precision=1e-10)
-    with mock.patch.object(impl_mod.optimat, "minimize_bandwidth", lambda M: torch.tensor(site_perm, dtype=torch.int64)):
+    real_mb = impl_mod.optimat.minimize_bandwidth
+
+    def forced(M):
+        # the real optimiser runs on the very tensor the back-end hands it (its side effects are part of
+        # the run); only its *answer* is replaced by the forced order unless the case asks for the real one
+        ans = real_mb(M, samples=3) if not case.get("real_order") else real_mb(M)
+        return ans if case.get("real_order") else torch.tensor(site_perm, dtype=torch.int64)
+    with mock.patch.object(impl_mod.optimat, "minimize_bandwidth", forced):
         r = compat.run_mps(data, cfg)
+    after = [data.interaction_matrix(t).detach().clone().view(torch.int64) for t in probe_times]
+    if not all(torch.equal(a, b) for a, b in zip(before, after)):
+        raise InputMutated("SequenceData.interaction_matrix(t) is not bit-identical after the run "
+                           f"(optimize_qubit_ordering={optimise}): the run modified its input in place")
     ao = list(r.atom_order)
     occ = torch.as_tensor(r.get_result("occupation", 1.0)).tolist()
     cor = torch.as_tensor(r.get_result("correlation_matrix", 1.0)).tolist()
@@ -343,7 +373,10 @@ def e2e_oracle(case):
     for name, order, sp, opt in (("optimize_qubit_ordering on", ident, case["site_perm"], True),
                                  ("relabelled register", case["relabel"], ident, False),
                                  ("relabelled register + ordering on", case["relabel"], case["site_perm"], True)):
-        got = run_backend(case, order, sp, opt)
+        try:
+            got = run_backend(case, order, sp, opt)
+        except InputMutated as e:
+            return f"{name}: {e}", worst
         if got[3] != [case["ids"][i] for i in order]:
             return f"{name}: atom_order {got[3]} is not the register order", worst
         d = max([abs(got[0][a] - base[0][a]) for a in base[0]] + [abs(got[1][k] - base[1][k]) for k in base[1]]
@@ -356,8 +389,9 @@ def e2e_oracle(case):
 
 def e2e_search(rep: Report, rng, ncases: int, nmax: int) -> None:
     worst = 0.0
-    for _ in range(ncases):
-        case = gen_e2e(rng, nmax)
+    for k in range(ncases):
+        # the first two cases always carry mixed-sign couplings: a signed user matrix (Rydberg) and XY
+        case = gen_e2e(rng, nmax, *((("mixed", "Rydberg"), ("mixed", "XY"))[k] if k < 2 else (None, None)))
         try:
             msg, w = e2e_oracle(case)
         except Exception as e:
@@ -370,6 +404,9 @@ def e2e_search(rep: Report, rng, ncases: int, nmax: int) -> None:
                  sample={"what": "e2e", "n": case["n"], "site_perm": case["site_perm"], "relabel": case["relabel"], "bad": case["bad"]})
         rep.hist("e2e_n", case["n"])
         rep.hist("e2e_dark_atom", any(case["bad"]))
+        rep.hist("e2e_interaction_sign", case["sign"])
+        rep.hist("e2e_hamiltonian", case["ham"])
+        rep.hist("e2e_order", "real optimiser" if case["real_order"] else "forced")
     rep.extra["e2e_worst_difference"] = worst
     rep.extra["e2e_tolerance"] = "1e-6 (n=3), 1e-3 (n=4)"
 
